@@ -18,7 +18,8 @@ def _select_axis(ref, pos, positions):
     return ref.select(sel)
 
 
-def sort_axis(ctx, shape, axis, lkind, key=None, dkind='f'):
+def sort_axis(ctx, shape, axis, lkind, key=None, dkind='f', under=None):
+    ctx.under(under)
     nd = len(shape)
     lkinds = ['i', 'U', 'f', 'i'][:nd]
     kw, pos = _axarg(DIMS[:nd], axis)
@@ -113,7 +114,8 @@ def compress_axis(ctx, shape, axis, maskform='ndarray'):
     return ctx.done(same(ctx, r[1], _select_axis(ref, pos, [j for j, b in enumerate(bits) if b]), attrs=attrs), ctx.observe(r[1]))
 
 
-def dropna(ctx, shape, axis, minvalid=None, lkind='i', inf=False):
+def dropna(ctx, shape, axis, minvalid=None, lkind='i', inf=False, under=None):
+    ctx.under(under)
     nd = len(shape)
     lkinds = ['i', 'U', 'f', 'i'][:nd]
     kw, pos = _axarg(DIMS[:nd], axis)
@@ -255,5 +257,9 @@ def templates():
     for shape, axis in (([3], 0), ([2, 3], 1), ([3, 2], 'name0'), ([2, 2, 3], -1)):
         for form in ('list', 'array'):
             add('take-negpos-%s-%s-%s' % ('x'.join(map(str, shape)), axis, form), 'take_axis', cost=1.5, shape=shape, axis=axis, lkind='U', k=2, indexing='position', form=form, negative=True)
+    add('sort-under-position', 'sort_axis', cost=1, shape=[3], axis=0, lkind='i', under={'indexing.by': 'position'})
+    add('sort-under-position-2d', 'sort_axis', cost=1, shape=[2, 3], axis='name1', lkind='i', under={'indexing.by': 'position'})
+    add('dropna-under-position', 'dropna', cost=1, shape=[3, 2], axis=0, lkind='i', under={'indexing.by': 'position'})
+    add('dropna-under-position-1d', 'dropna', cost=1, shape=[3], axis=0, lkind='i', under={'indexing.by': 'position'})
     add('fillna-int-value', 'fillna', cost=0.5, shape=[2, 2], dkind='f', vkind='i')
     return ts
